@@ -320,7 +320,7 @@ def _oddpos_parse_labels_task():
             check_call(it, f"oddpos_parse.odd_label_{nm}", fn, [lbl, 1], post=post)
             check_call(it, f"oddpos_parse.even_label_{nm}_dropped", fn, [lbl, 0], post=lambda r: [("empty", r == ())])
 
-    return Task("C04.oddpos_parse.label_types", ["C04", "C01", "C16"], ["fermionic_core.oddpos_parse", FOP_CLS + ".__init__"], body)
+    return Task("C04.oddpos_parse.label_types", ["C04", "C01", "C16", "C03"], ["fermionic_core.oddpos_parse", FOP_CLS + ".__init__"], body)
 
 
 def tasks():
